@@ -633,7 +633,43 @@ func runInBubble(t *testing.T, f func()) {
 
 // healAndCheck: C02 - once datagrams get through again everything written is delivered and the
 // backlog returns to zero within a time bounded by the retransmission timers.
+// healBound: "within a time bounded by the retransmission timers".  On a healed network the only
+// remaining cause of loss is a sender overshooting the receiver's window with segments whose
+// timers expire together: each round then delivers at least min(rcv_wnd, outstanding) segments,
+// and the i-th further round of a segment waits its per-segment rto, which grows by at most
+// rx_rto <= 60 s per timeout.  Window probes add at most 120 s.
+func (s *coreSim) healBound() uint32 {
+	var worst uint64
+	for e := 0; e < 2; e++ {
+		k, peer := s.k[e], s.k[1-e]
+		n := uint64(k.snd_buf.Len())
+		w := uint64(max(1, min(int(peer.rcv_wnd), int(k.snd_wnd))))
+		rounds := n/w + 2
+		maxrto := uint64(k.rx_rto)
+		k.snd_buf.ForEach(func(g *segment) bool {
+			if g.acked == 0 && uint64(g.rto) > maxrto && g.rto < 1<<31 {
+				maxrto = uint64(g.rto)
+			}
+			return true
+		})
+		var t uint64 = 130000 + 300000 + uint64(k.snd_queue.Len())*1000
+		for i := uint64(0); i <= rounds; i++ {
+			t += maxrto + (i+1)*60000
+		}
+		if t > worst {
+			worst = t
+		}
+	}
+	if worst > 1<<30 {
+		worst = 1 << 30
+	}
+	return uint32(worst)
+}
+
 func (s *coreSim) healAndCheck(limit uint32, useUpdate bool) int {
+	if b := s.healBound(); b > limit {
+		limit = b
+	}
 	s.rep.Monitors["drains-after-healing"]++
 	d := s.drain(limit, useUpdate)
 	if s.dead {
